@@ -675,6 +675,60 @@ theorem C08_tryNext_advances_partial (N : List Name) (hN : N.Pairwise (· < ·))
     (r.2.2 = .all ∨ r.2.2 = .newchoice) ∧ ∃ c' cs', r.1 = .mult .or v c' c1 k cs' ∧ c ≤ c' ∧ c' ≤ (p : Int) :=
   tryNext_or_advances N hN f v c c1 k cs es r o p chp h hnm hfr htidy hchk hsm hk hcp hp hpa hnd hout
 
+-- ------------------------------------------------------------------ the digit step on a reached state with a repeated leaf
+/-- `a > b > c`, `b` a non-abstract sub-supertype: the list exp2cxx emits (`collectOf`), with the repeated leaf `b` -/
+def exNasHead : Tree := .and [.simple 0, .andor [.or [.simple 1, .and [.simple 1, .andor [.simple 2]]]]]
+
+/-- the alternative `AND(b, ANDOR(c))` after the first pass on the request `{a, b, c}` -/
+def exNasAlt : ST := .mult .and .all (-1) (-1) 0 [.simple 1 .some_ .no, .mult .andor .all (-1) (-1) 0 [.simple 2 .all .no]]
+/-- the OrList `OR(b, AND(b, ANDOR(c)))` after the first pass: it stands at its first alternative, which holds `b` -/
+def exNasOr : ST := .mult .or .all 0 0 2 [.simple 1 .some_ .orm, exNasAlt]
+def exNasEnts : Ents := [{ name := 0, mark := .mk, mult := false }, { name := 1, mark := .orm, mult := false },
+  { name := 2, mark := .no, mult := false }]
+
+/-- the state the example below starts from is the one the first pass of `ComplexList::matches` (`matchNonORs`, then
+`matchORs`) leaves on the request `{a, b, c}`: the OrList stands at `b` alone, `c` is unmarked, the verdict so far MATCHSOME -/
+theorem C08_tryNext_advances_reached : (matchNonORs 100 (fresh exNasHead) (mkEnts [] [0, 1, 2]) >>= fun x => matchORs 100 x.1 x.2.1) =
+    .ok (.mult .and .some_ (-1) (-1) 0 [.simple 0 .some_ .mk, .mult .andor .some_ (-1) (-1) 0 [exNasOr]], exNasEnts, .some_) := by
+  rfl
+
+/-- the hypotheses of `C08_tryNext_advances_partial` hold in that state -/
+theorem exNas_hyps : Fr (fun n => if n = 0 then 1 else 0) exNasOr exNasEnts ∧ Tidy exNasOr ∧ ChK exNasOr ∧
+    smallOr (skel exNasOr) ∧ PA [0, 1, 2] exNasAlt ∧ (lvS exNasAlt).Nodup := by
+  refine ⟨⟨fun n => ?_, ?_⟩, ?_, ?_, ?_, ?_, ?_⟩
+  · by_cases h0 : n = 0
+    · subst h0; decide
+    · by_cases h1 : n = 1
+      · subst h1; decide
+      · by_cases h2 : n = 2
+        · subst h2; decide
+        · have e0 : (0 : Name) ≠ n := fun e => h0 e.symm
+          have e1 : (1 : Name) ≠ n := fun e => h1 e.symm
+          have e2 : (2 : Name) ≠ n := fun e => h2 e.symm
+          simp [exNasOr, exNasAlt, exNasEnts, cnt, holds, holdsL, markAt, h0, h1, h2, e0, e1, e2]
+  · simp [exNasOr, exNasAlt, exNasEnts, Loc, LocL, markAt, MT.rank]
+  · simp [exNasOr, exNasAlt, Tidy, TidyL, KC, UC, Kr, holds, holdsL, MT.rank, inRange, ST.viable]
+    intro i ch hi hne
+    match i, hi with
+    | 0, _ => exact absurd rfl hne
+    | 1, hi => simp at hi; subst hi; simp [holds, holdsL]
+    | i + 2, hi => simp at hi
+  · simp [exNasOr, exNasAlt, ChK, ChKL, Kr, MT.rank, inRange, ST.viable]
+    intro _ i ch hi hch
+    subst hi
+    simp at hch; subst hch; decide
+  · simp [exNasOr, exNasAlt, skel, skelL, smallOr, smallOrL]; decide
+  · simp [exNasAlt, PA, PAall, PAsome, PAany, MT.rank]
+  · decide
+
+/-- … so they are satisfiable in a reached state of the repeated-leaf shape `OR(b, AND(b, …))`: there `OrList::tryNext`
+moves on (to `AND(b, ANDOR(c))`, the alternative the request needs), for every fuel that suffices -/
+theorem C08_tryNext_advances_example (f : Nat) (r : ST × Ents × MT) (h : tryNext f exNasOr exNasEnts = .ok r) :
+    (r.2.2 = .all ∨ r.2.2 = .newchoice) ∧ ∃ c' cs', r.1 = .mult .or .all c' 0 2 cs' ∧ 0 ≤ c' ∧ c' ≤ 1 :=
+  C08_tryNext_advances_partial [0, 1, 2] (by decide) f .all 0 0 2 _ exNasEnts r (fun n => if n = 0 then 1 else 0) 1 exNasAlt
+    h rfl exNas_hyps.1 exNas_hyps.2.1 exNas_hyps.2.2.1 exNas_hyps.2.2.2.1 (by decide) (by decide) rfl
+    exNas_hyps.2.2.2.2.1 exNas_hyps.2.2.2.2.2 (by decide)
+
 /-- **The digit restarts at its first value** (partial: as above, leaf hypotheses on the alternative at `p` only; nothing
 held below the OrList — the state NOMORE leaves, `C08_nomore_exhausted`/`Idle`).  The re-acceptance after a NEWCHOICE of
 an earlier digit (`MultList::tryNext`'s forward loop → `OrList::acceptChoice` on an exhausted OrList, `choice = LISTEND`)
